@@ -662,6 +662,10 @@ class NetworkXPropertyGraph(ABCPropertyGraph, NetworkXMixin):
         # find out internal IDs of the two nodes in our graph and other graph
         real_node = self._find_node(node_id=node_id)
         real_other_node = self._find_node(node_id=node_id, graph_id=other_graph.graph_id)
+        if real_node == real_other_node:
+            # other_graph is this graph: contracting a node with itself removes it
+            raise PropertyGraphQueryException(graph_id=self.graph_id, node_id=node_id,
+                                              msg="Unable to merge a node with itself")
 
         # save properties of both (by copy)
         node_props = self.storage.get_graph(self.graph_id).nodes[real_node].copy()
